@@ -113,7 +113,9 @@ void fill_histogram(SrcView const& srcview, std::map<T1, T2>& histogram, bool ac
         histogram.clear();
 
     for_each_pixel(color_converted_view<pixel_t>(srcview), [&](pixel_t const& p) {
-        ++histogram[static_cast<std::size_t>(p)];
+        // the key keeps the sign of the channel: through std::size_t the value -1 of a signed
+        // image became the key 1.8e19 of a map<double, ...>
+        ++histogram[static_cast<T1>(get_color(p, gray_color_t()))];
     });
 }
 
